@@ -276,8 +276,15 @@ mut('c16_sorted_constants', 'C16', 'model_modifier.py',
         continue
       buffer.offset = len(dummy_bytearray)''', 'offsets assigned in size order, data appended in index order')
 
+mut('c16_revert_empty_buffer_fix', 'C16', 'model_modifier.py',
+    '      if buffer.data is not None and len(buffer.data):\n', '      if buffer.data is not None:\n',
+    'the repaired defect b4e2bee returns (first half)')
+
 # multi-site mutants: extra edits applied after the first replacement
 EXTRA = {
+    'c16_revert_empty_buffer_fix': [(R + 'model_modifier.py',
+                                     '      if buffer_data is None or not len(buffer_data):\n',
+                                     '      if buffer_data is None:\n')],
     'c11_resolution_cache': [(R + 'recipe_manager.py',
                               '    return result_key, result_config\n',
                               '    cache[(target_op_name, scope_name, len(self._scope_configs))] = (\n        result_key, result_config)\n    return result_key, result_config\n')],
